@@ -7,6 +7,10 @@ CONSTANTS
   KText = 1
   KWire = 1
   VAlpha = {65, 91, 97}
+  BigK = {1, 62, 63}
+  BigFill = {255, 90}
+  PairAlpha = {0, 64, 65, 90, 91, 97, 255}
+  ZAlpha = {65}
   Modes = {"pair", "triple", "neigh", "cons"}
 INVARIANT Total
 INVARIANT Antisymmetric
